@@ -19,7 +19,38 @@ def sh(cmd, cwd=None, timeout=3600):
     return p.returncode, (p.stdout + p.stderr)
 
 
+def recheck(name, props):
+    """re-run the registered checks against an already filed seed: seeded_eval.py --recheck <id> [properties]"""
+    d = os.path.join(VERIF, 'seeded', name)
+    meta = json.load(open(os.path.join(d, 'meta.json')))
+    patch = os.path.join(d, 'patch.diff')
+    props = props or [meta['breaks_property']]
+    rc, out = sh('git -C /repo apply --check %s' % patch)
+    if rc != 0:
+        print(name, 'patch no longer applies:', out[-200:])
+        return 2
+    sh('git -C /repo apply %s' % patch)
+    results = meta.get('checks') if isinstance(meta.get('checks'), dict) else {}
+    try:
+        for p in props:
+            t0 = time.time()
+            rc, out = sh('./vcheck %s --tier quick' % p, cwd=VERIF, timeout=3600)
+            lines = [l for l in out.splitlines() if l.startswith(('VIOLATION', 'UNDECIDED', 'CHECKER-ERROR', 'KNOWN-FINDING'))
+                     or ' HELD ' in l or 'NOT-HELD' in l]
+            results[p] = {'exit': rc, 'wall_s': round(time.time() - t0, 1), 'lines': [l[:300] for l in lines[:12]]}
+            print(name, 'vcheck', p, 'exit', rc, '|', '; '.join(l[:150] for l in lines[:3]))
+    finally:
+        sh('git -C /repo reset -q --hard HEAD')
+        sh('git checkout -- evidence', cwd=VERIF)
+    meta['checks'] = results
+    meta['detected_by'] = [p for p, r in results.items() if r['exit'] == 1]
+    json.dump(meta, open(os.path.join(d, 'meta.json'), 'w'), indent=1)
+    return 0
+
+
 def main():
+    if sys.argv[1] == '--recheck':
+        return recheck(sys.argv[2], sys.argv[3:])
     wt, k, pid = sys.argv[1:4]
     run_props = [pid] + sys.argv[4:]
     patch = os.path.join(wt, 'patch%s.diff' % k)
